@@ -127,6 +127,17 @@ C04Part(d) ==
                      @@ [fam |-> fam])
              /\ (si = 1) => Emit(TwoCase("unpaired", ty, "ci", FlipK[ki], li, db, da, FALSE, "exchange") @@ [fam |-> fam])
 
+\* designed sample pairs with NON-INTEGER effective degrees of freedom (spec/tables/tqx.ndjson):
+\* consecutive pairs share the integer part of the dof, and the cases of one confidence are emitted
+\* back to back (the harness runs this part on one thread): a stale or truncated dof shows
+DesignedPart(d) ==
+  \A li \in 1..17 : \A ki \in 1..3 : \A ty \in {"f64"} : \A pi \in 1..NDesigned : \A sw \in {1, 2} :
+     LET da == Seq1([j \in DOMAIN DesignedA(pi) |-> V(DesignedA(pi)[j], 0)])
+         db == Seq1([j \in DOMAIN DesignedB(pi) |-> V(DesignedB(pi)[j], 0)]) IN
+     Emit(TwoCase("unpaired", ty, "ci", IF sw = 1 THEN ki ELSE FlipK[ki], li,
+                  IF sw = 1 THEN da ELSE db, IF sw = 1 THEN db ELSE da, sw = 1, IF sw = 1 THEN "base" ELSE "exchange")
+          @@ [designed |-> pi])
+
 \* ---- C05 ----------------------------------------------------------------------------------------
 PosSample(i, n, p) ==
     LET q == n \div 3  c1 == Pick(i, 41, 0, q)  c2 == Pick(i, 42, 0, q)  c3 == n - c1 - c2
@@ -140,6 +151,13 @@ C05Part(d) ==
        IN \A li \in Levs : \A ki \in 1..3 :
             /\ Emit(MeanCase(fl, ty, "ci", ki, li, data, TRUE, "base") @@ [aux |-> TRUE])
             /\ Emit(MeanCase(fl, ty, "extend", ki, li, data, FALSE, "style") @@ [aux |-> FALSE])
+  \* the same kind of samples at very large / very small magnitudes (reciprocal-space quantities near the
+  \* machine epsilon are still ordinary numbers)
+  /\ \A i \in 1..((ND + 3) \div 4) : \A ty \in {"f64", "f32"} : \A sc \in {-1, 1} :
+       LET n == Pick(900 + i, 48, 2, 60)
+           data == PosSample(900 + i, n, 0) @@ [scale |-> [p |-> sc * (IF ty = "f64" THEN 70 ELSE 24)]] IN
+       \A li \in LevQuick : \A ki \in 1..3 : \A fl \in {"geo", "harm"} :
+            Emit(MeanCase(fl, ty, "ci", ki, li, data, TRUE, "base") @@ [aux |-> TRUE])
   \* near-constant and wide samples
   /\ \A fl \in {"geo", "harm"} : \A ty \in {"f64", "f32"} : \A li \in Levs : \A ki \in 1..3 :
        /\ Emit(MeanCase(fl, ty, "ci", ki, li, [rle |-> << <<V(1000, 0), 9>>, <<V(1001, 0), 8>> >>, order |-> "asc"], TRUE, "base") @@ [aux |-> TRUE])
@@ -150,5 +168,6 @@ Next == /\ ~done
         /\ done' = TRUE
         /\ CASE Part = "c01" -> C01Part(done) [] Part = "c06" -> C06Part(done)
              [] Part = "c04" -> C04Part(done) [] Part = "c05" -> C05Part(done)
+             [] Part = "designed" -> DesignedPart(done)
 Spec == Init /\ [][Next]_done
 =============================================================================
